@@ -42,10 +42,10 @@ def generated_rs(info):
     out.append('pub fn layout_map(name: &str, k: KeyCode, m: &Modifiers, h: HandleControl) -> Option<DecodedKey> {')
     out.append('    match name {')
     for l in lay:
-        out.append('        "%s" => Some(%s.map_keycode(k, m, h)),' % (l, l))
+        out.append('        "%s" => Some(KeyboardLayout::map_keycode(&%s, k, m, h)),' % (l, l))
         if l in wrapped:
-            out.append('        "Any:%s" => Some(AnyLayout::%s(%s).map_keycode(k, m, h)),' % (l, l, l))
-            out.append('        "RefAny:%s" => {{ let a = AnyLayout::%s(%s); let r = &a; Some(r.map_keycode(k, m, h)) }}' % (l, l, l))
+            out.append('        "Any:%s" => Some(KeyboardLayout::map_keycode(&AnyLayout::%s(%s), k, m, h)),' % (l, l, l))
+            out.append('        "RefAny:%s" => {{ let a = AnyLayout::%s(%s); let r = &a; Some(KeyboardLayout::map_keycode(&r, k, m, h)) }}' % (l, l, l))
     out.append('        _ => None,')
     out.append('    }')
     out.append('}')
@@ -53,7 +53,9 @@ def generated_rs(info):
 
 
 def xgen_rs(info):
-    """generated items used by xspec.rs: KeyCode by index, reference scancode tables (None = known-finding gap), layout dispatch"""
+    """generated items used by xspec.rs: KeyCode by index, reference scancode tables (None = known-finding gap), layout dispatch.
+    Layouts are always called through the trait (`KeyboardLayout::map_keycode(&L, ..)`): that is what a generic user such as
+    `EventDecoder<L>` gets, whereas method syntax on the concrete type would pick an inherent method of the same name"""
     import json as _json
     out = ['// generated on every run', 'pub const X_NKEYS: u8 = %d;' % len(info.keycodes), 'pub fn x_keycode(i: u8) -> KeyCode {', '    match i % X_NKEYS {']
     for i, k in enumerate(info.keycodes):
@@ -91,12 +93,12 @@ def xgen_rs(info):
     out.append('pub fn x_layout_call(layout: u8, form: u8, k: KeyCode, m: &Modifiers, h: HandleControl) -> DecodedKey {')
     out.append('    match (layout % X_NLAYOUTS, form % 3) {')
     for i, l in enumerate(lay):
-        out.append('        (%d, 0) => %s.map_keycode(k, m, h),' % (i, l))
+        out.append('        (%d, 0) => KeyboardLayout::map_keycode(&%s, k, m, h),' % (i, l))
         if l in wrapped_layouts(info):
-            out.append('        (%d, 1) => AnyLayout::%s(%s).map_keycode(k, m, h),' % (i, l, l))
-            out.append('        (%d, _) => {{ let a = AnyLayout::%s(%s); let r = &a; r.map_keycode(k, m, h) }}' % (i, l, l))
+            out.append('        (%d, 1) => KeyboardLayout::map_keycode(&AnyLayout::%s(%s), k, m, h),' % (i, l, l))
+            out.append('        (%d, _) => {{ let a = AnyLayout::%s(%s); let r = &a; KeyboardLayout::map_keycode(&r, k, m, h) }}' % (i, l, l))
         else:
-            out.append('        (%d, _) => %s.map_keycode(k, m, h),   // not a variant of AnyLayout' % (i, l))
+            out.append('        (%d, _) => KeyboardLayout::map_keycode(&%s, k, m, h),   // not a variant of AnyLayout' % (i, l))
     out.append('        _ => DecodedKey::RawKey(k),')
     out.append('    }')
     out.append('}')
